@@ -43,7 +43,7 @@ fn c18_grid(tier: Tier) -> Vec<Program> {
                 for checked in [true, false] {
                     for by_key in [true, false] {
                         for fl in [Fl::Sync, Fl::Async] {
-                            for dest in [Dest::Absent, Dest::Existing, Dest::OtherFs, Dest::LongName, Dest::WithSiblings, Dest::LinkOfContent] {
+                            for dest in [Dest::Absent, Dest::Existing, Dest::OtherFs, Dest::LongName, Dest::WithSiblings, Dest::LinkOfContent, Dest::ExistingSuperset, Dest::SymlinkToContent, Dest::Directory] {
                                 n += 1;
                                 if len > 100_000 && n % 3 != 0 {
                                     continue;
